@@ -338,6 +338,77 @@ def genSchemaSet (cyclic : Bool) (forWsdl : Bool := false) : M SchemaSet := do
     files := files ++ [{ fileName := "f" ++ toString ns ++ ".xsd", tns := ns, prefixes := prefixes, imports := imports, comps := shuffled }]
   pure { uris := uris, files := files, start := start }
 
+/-! ### the namespace / import / prefix-style family (`gentopo`)
+
+Small schema sets that vary exactly what the namespace machinery depends on: 2–4 files whose URIs mostly
+share one natural abbreviation; every import edge present or absent, bound to a prefix or *silent* (the
+importer binds no prefix for it); each file's own namespace bound as `tns`, as `pK`, or as the default
+namespace (references to own components are then unprefixed); and the *same local names* (`Base`, `Derived`,
+`Far`, `Code`, `Item`) declared in every namespace with different members, so that a reference resolved in the
+wrong namespace, or by name only, shows up as a different member list. Declaration order is shuffled
+(forward references). -/
+
+def topoUris : List String := [
+  "http://example.com/v1/types", "http://example.com/v2/types", "http://example.org/types", "urn:example:types",
+  "http://example.com/schemas/typ", "http://example.com/typology"]
+
+def letterOf (i : Nat) : String := (["a", "b", "c", "d", "e"].getD i "z")
+
+def genTopoSet : M SchemaSet := do
+  let nNs := 2 + (← below 3)
+  let colliding ← chance 3 4
+  let mut uris : List String := []
+  while uris.length < nNs do
+    let u ← pick (if colliding then topoUris else uriPool)
+    if !uris.contains u then uris := uris ++ [u]
+  let mut edges : List (Nat × Nat) := []
+  let mut silent : List (Nat × Nat) := []
+  for i in [0:nNs] do
+    for j in [0:nNs] do
+      if j < i && (← chance 3 4) then
+        edges := edges ++ [(i, j)]
+        if (← chance 2 5) then silent := silent ++ [(i, j)]
+  let visible := fun (i j : Nat) => i == j || (edges.contains (i, j) && !silent.contains (i, j))
+  let str : TypeRef := .builtin "string"
+  let mut files : List SchemaFile := []
+  for ns in [0:nNs] do
+    let L := letterOf ns
+    let others := (List.range nNs).filter (fun j => j != ns && visible ns j)
+    let base : Component := .complexType "Base"
+      { content := some ({}, [.elem ("bx" ++ L) str {}, .elem ("by" ++ L) (.builtin "int") { min := 0 }]),
+        attrs := [{ name := "at" ++ L, ty := str, required := false }] } none
+    let derived : Component := .complexType "Derived"
+      { base := some (ns, "Base"),
+        content := some ({}, [.elem ("dv" ++ L) str {}, .elem ("cd" ++ L) (.named ns "Code") { min := 0 }] ++
+          others.map (fun j => .elem ("us" ++ letterOf j) (.named j "Base") { min := 0 })) } none
+    let far : List Component := match others with
+      | j :: _ => [.complexType "Far" { base := some (j, "Base"), content := some ({}, [.elem ("fr" ++ L) str {}]),
+                                        attrs := [{ name := "fa" ++ L, ty := .named j "Code", required := false }] } none]
+      | [] => []
+    let code : Component := .simpleType "Code" (.builtin "string") { maxLength := some (3 + ns) } none
+    let item : Component := .elementAnon "Item"
+      { content := some ({}, [.elem ("iv" ++ L) str {}] ++ others.map (fun j => .ref j "Item" { min := 0 })) }
+    let alias : List Component := match others with
+      | j :: _ => [.elementTyped "Other" (.named j "Derived")]
+      | [] => [.elementTyped "Own" (.named ns "Derived")]
+    let comps := [base, derived] ++ far ++ [code, item] ++ alias
+    let mut shuffled : List Component := []
+    for c in comps do
+      let k ← below (shuffled.length + 1)
+      shuffled := shuffled.take k ++ [c] ++ shuffled.drop k
+    let style ← below 3
+    let mut prefixes : List (Nat × String) := [(ns, if style == 0 then "tns" else if style == 1 then "p" ++ toString ns else "")]
+    for j in others do
+      prefixes := prefixes ++ [(j, if (← chance 1 3) then "q" ++ toString j else "p" ++ toString j)]
+    -- a silent import may come before or after the bound ones
+    let imps := (edges.filter (·.1 == ns)).map (·.2)
+    let imps ← if (← chance 1 2) then pure imps.reverse else pure imps
+    files := files ++ [{ fileName := "f" ++ toString ns ++ ".xsd", tns := ns, prefixes := prefixes, imports := imps, comps := shuffled }]
+  pure { uris := uris, files := files, start := nNs - 1 }
+
+def runTopo (seed : Nat) : SchemaSet :=
+  (genTopoSet.run { seed := seed * 2654435761 + 4242 }).1
+
 def urlPool : List (String × String) := [
   ("http://localhost:8080/svc", "http://localhost:8080/svc"), ("https://example.com/soap/endpoint", "https://example.com/soap/endpoint"),
   ("http://example.com", "http://example.com/"), ("http://EXAMPLE.com:80/a/../b", "http://example.com/b"),
